@@ -38,6 +38,11 @@ void cf_panics_stub(JanetString m) {
     REACH("asm raises a catchable error");
     __CPROVER_assume(0);
 }
+void cf_panic_stub(const char *m) {
+    __CPROVER_assert(m != (void *) 0, "asm: an error is raised with a message");
+    REACH("asm raises a catchable error for a definition it cannot wrap");
+    __CPROVER_assume(0);
+}
 void h_cfun_asm(void) {
     Janet arg;
     arg.type = (JanetType)(nd_uint() % 16);
